@@ -45,6 +45,10 @@ def stages(tier, rng, only=None):
     out.append(ac.stage("tiny_penalties", PID, lambda: ac.cases(
         [ac.random_dataset(rng, 6, 6, nmin=3) for _ in range(n_rand)] + g[::7], algorun.ALL_CONFIGS, ac.TINY,
         flags=(0, 1), every={k: 4 * v for k, v in COSTLY.items()}), _nt))
+    cheap_cfgs = [c for c in algorun.ALL_CONFIGS if c not in COSTLY]
+    out.append(ac.stage("huge_penalties", PID, lambda: ac.huge_cases(
+        [ac.random_dataset(rng, 6, 6, nmin=3) for _ in range(n_rand // 3)]
+        + [ac.cyclic_dataset(rng, 3, 6, incomplete=k % 2 == 1) for k in range(n_rand // 3)], cheap_cfgs), _nt))
     out.append(ac.stage("cycles", PID, lambda: ac.cases(
         [ac.cyclic_dataset(rng, 3, 5, incomplete=k % 2 == 1) for k in range(n_rand // 3)],
         algorun.ALL_CONFIGS, SCHEMES, every={k: 2 * v for k, v in COSTLY.items()}), _nt))
